@@ -562,6 +562,18 @@ void executeRun(const Desc& d, Obs& o) {
         out->~RecConsole(); ::free(out);
         for (size_t i = 0; i < made.size(); i++) { made[i]->~TestFilter(); ::free(made[i]); }
     } else {
+        if (d.pi("prologue")) {
+            // An earlier invocation of the runner on the same registry, with other options: filters that select nothing, no -e, maybe -v. Whatever it
+            // set must not reach the run that follows (its own arguments say what it wants). Nothing of the prologue is recorded.
+            fired("earlier_runner_invocation_on_the_same_registry");
+            Obs scratch; RS.o = &scratch;
+            Vec<const char*> pav; pav.push_back("prog"); pav.push_back("-sg"); pav.push_back("NoSuchGroup_zz"); pav.push_back("-sn"); pav.push_back("no_such_name_zz");
+            if (d.pi("prologue") == 2) pav.push_back("-v");
+            { SimRunner pro((int)pav.size(), pav.data(), &reg); (void)pro.runAllTestsMain(); }
+            RS.o = &o; RS.primaryOutput = 0; RS.currentTest = -1; RS.testsStartedSoFar = 0;
+            simIO().reset(); simClock().reset((uint64_t)d.pi("clock_start"), d.pi("clock_step", 1));
+            simRand().calls = 0; simRand().srands = 0;
+        }
         SimRunner runner((int)avp.size(), avp.data(), &reg);
         o.ret = runner.runAllTestsMain();
     }
